@@ -19,11 +19,14 @@
 (* kvindex/kvindex.go as of the tree with the C04 fixes:                   *)
 (*   AddGraph     [4 prefix deletes + 3 per leftover field] + Set f, Set f, Set g *)
 (*   DeleteGraph  Delete g, 4 prefix deletes, 3 per indexed field          *)
-(*   AddVertex    1 bulk write                                             *)
+(*   AddVertex    1 bulk write + 1 transaction per label a vertex lost     *)
 (*   AddEdge/BulkAdd  1 bulk write + 3 deletes per superseded edge key     *)
+(*                (+ 1 transaction when the label changed), then as AddVertex *)
 (*   DelEdge, DelVertex  1 transaction                                     *)
 (* Pinned = TRUE models the tree before the fixes (Fields not reloaded at  *)
-(* open, DelEdge/DelVertex/DeleteGraph as separate writes, graph key last) *)
+(* open, DelEdge/DelVertex/DeleteGraph as separate writes, graph key last; *)
+(* the label clean-up after a re-labelling is modelled as in the fixed     *)
+(* tree, where it is one transaction instead of one or two deletes)        *)
 EXTENDS Reopen
 
 CONSTANTS Pinned
@@ -35,10 +38,20 @@ ivars == <<gs, hist, fin, rset, l, K, F>>
 KeyOf(x) == CASE x[1] = "v" -> SubSeq(x, 1, 3) [] x[1] = "e" -> SubSeq(x, 1, 6) [] OTHER -> x
 HasPrefix(x, p) == Len(x) >= Len(p) /\ SubSeq(x, 1, Len(p)) = p
 
-\* a top-level write: puts (in order, last wins), deleted keys, deleted prefixes
-W(t, put, del, pre) == [t |-> t, put |-> put, del |-> del, pre |-> pre]
+\* index keys to drop with the elements `gone` (set of <<id, label>>) of one kind: their entries and the
+\* terms of the labels no other element carries
+Unindex(Ks, g, kind, gone) ==
+  {<<"i", g, kind, x[2], x[1]>> : x \in gone}
+  \cup {<<"t", g, kind, lb>> : lb \in {lbl \in {x[2] : x \in gone} :
+            ~\E y \in Ks : y[1] = "i" /\ y[2] = g /\ y[3] = kind /\ y[4] = lbl /\ <<y[5], lbl>> \notin gone}}
+
+\* a top-level write: puts (in order, last wins), deleted keys, deleted prefixes, and label-index entries
+\* <<g, kind, id, label>> whose keys are looked up when the write is issued
+W(t, put, del, pre) == [t |-> t, put |-> put, del |-> del, pre |-> pre, unidx |-> {}]
+WU(g, kind, id, label) == [t |-> "Update", put |-> <<>>, del |-> {}, pre |-> {}, unidx |-> {<<g, kind, id, label>>}]
 Step(Ks, w) ==
-  LET kept == {x \in Ks : KeyOf(x) \notin w.del /\ ~\E p \in w.pre : HasPrefix(x, p)}
+  LET dels == w.del \cup UNION {Unindex(Ks, u[1], u[2], {<<u[3], u[4]>>}) : u \in w.unidx}
+      kept == {x \in Ks : KeyOf(x) \notin dels /\ ~\E p \in w.pre : HasPrefix(x, p)}
       lastp == {j \in DOMAIN w.put : ~\E j2 \in DOMAIN w.put : j2 > j /\ KeyOf(w.put[j2]) = KeyOf(w.put[j])}
   IN {x \in kept : ~\E j \in DOMAIN w.put : KeyOf(w.put[j]) = KeyOf(x)} \cup {w.put[j] : j \in lastp}
 \* states after each write: <<K0, K1, ..., Kn>>
@@ -65,12 +78,6 @@ EPuts(Fs, g, r) == <<<<"e", g, r.id, r.from, r.to, r.label, r.data>>, <<"s", g, 
                    \o (IF <<g, "e">> \in Fs THEN <<<<"i", g, "e", r.label, r.id>>, <<"t", g, "e", r.label>>>> ELSE <<>>)
 ElemsValid(c) == \A i \in DOMAIN c.elems : IF c.elems[i].k = "v" THEN ValidV(c.elems[i].r) ELSE ValidE(c.elems[i].r)
 
-\* index keys to drop with the elements `gone` (set of <<id, label>>) of one kind
-Unindex(Ks, g, kind, gone) ==
-  {<<"i", g, kind, x[2], x[1]>> : x \in gone}
-  \cup {<<"t", g, kind, lb>> : lb \in {lbl \in {x[2] : x \in gone} :
-            ~\E y \in Ks : y[1] = "i" /\ y[2] = g /\ y[3] = kind /\ y[4] = lbl /\ <<y[5], lbl>> \notin gone}}
-
 EdgeKeys(Ks, g, P(_)) == {x \in Ks : x[1] = "e" /\ x[2] = g /\ P(x)}
 AdjOf(x) == {<<"s", x[2], x[4], x[5], x[3], x[6]>>, <<"d", x[2], x[5], x[4], x[3], x[6]>>}
 
@@ -93,9 +100,20 @@ Writes(Ks, Fs, c) ==
                   \* the key written last for every edge id of the batch stays
                   keepk == {KeyOf(puts[j]) : j \in {m \in DOMAIN puts : puts[m][1] = "e" /\ ~\E m2 \in DOMAIN puts : m2 > m /\ puts[m2][1] = "e" /\ puts[m2][3] = puts[m][3]}}
                   stale == SetToSeq(EdgeKeys(K1, c.g, LAMBDA x : x[3] \in eids /\ KeyOf(x) \notin keepk))
-              IN <<bw>> \o FlatSeq([j \in DOMAIN stale |-> LET x == stale[j] IN
+                  newLabel(eid) == (CHOOSE k \in keepk : k[3] = eid)[6]
+                  \* vertices whose id carried another label before (in the store or earlier in the batch)
+                  vix == {i \in DOMAIN c.elems : c.elems[i].k = "v"}
+                  finalLabel(id) == c.elems[CHOOSE i \in vix : c.elems[i].r.id = id /\ ~\E i2 \in vix : i2 > i /\ c.elems[i2].r.id = id].r.label
+                  oldLabels == {<<c.elems[i].r.id, lb>> : i \in vix, lb \in {y[4] : y \in {z \in Ks : z[1] = "v" /\ z[2] = c.g}} \cup {c.elems[j].r.label : j \in vix}}
+                  relab == SetToSeq({x \in oldLabels : /\ x[2] # finalLabel(x[1])
+                                                       /\ \/ \E y \in Ks : y[1] = "v" /\ y[2] = c.g /\ y[3] = x[1] /\ y[4] = x[2]
+                                                          \/ \E j \in vix : c.elems[j].r.id = x[1] /\ c.elems[j].r.label = x[2]})
+              IN <<bw>>
+                 \o FlatSeq([j \in DOMAIN stale |-> LET x == stale[j] IN
                       << W("Delete", <<>>, {KeyOf(x)}, {}), W("Delete", <<>>, {<<"s", x[2], x[4], x[5], x[3], x[6]>>}, {}),
-                         W("Delete", <<>>, {<<"d", x[2], x[5], x[4], x[3], x[6]>>}, {}) >>])
+                         W("Delete", <<>>, {<<"d", x[2], x[5], x[4], x[3], x[6]>>}, {}) >>
+                      \o (IF newLabel(x[3]) # x[6] THEN <<WU(c.g, "e", x[3], x[6])>> ELSE <<>>)])
+                 \o [j \in DOMAIN relab |-> WU(c.g, "v", relab[j][1], relab[j][2])]
     [] c.op = "DelEdge" ->
          IF c.g \notin GraphsOf(Ks) \/ EdgeKeys(Ks, c.g, LAMBDA x : x[3] = c.id) = {} THEN <<>>
          ELSE LET x == CHOOSE y \in EdgeKeys(Ks, c.g, LAMBDA z : z[3] = c.id) : TRUE
